@@ -189,7 +189,22 @@ def _check_body(ctx, res) -> None:
 
     trim = [n for n, mm in hist.methods.items()
             if any(isinstance(x, ast.Delete) and any(canon(through_alias(mm.node, getattr(t, "value", None))) == und for t in x.targets)
-                   for x in walk_local(mm.node)) and any(isinstance(x, ast.Compare) for x in walk_local(mm.node))]
+                   for x in walk_local(mm.node))
+            and (any(isinstance(x, ast.Compare) for x in walk_local(mm.node)) or any(
+                isinstance(x, ast.Delete) and any(isinstance(t, ast.Subscript) and isinstance(t.slice, ast.Slice) for t in x.targets) for x in walk_local(mm.node)))]
+    # the slice that is cut away is written with the limit as it stands: `del l[:-limit]` keeps the newest `limit` items for every
+    # limit but 0 -- `-0` is 0, `l[:0]` is empty, nothing is deleted and the list grows without bound
+    for n_ in trim:
+        mm = hist.methods[n_]
+        for x in walk_local(mm.node):
+            if isinstance(x, ast.Delete):
+                for t in x.targets:
+                    if isinstance(t, ast.Subscript) and isinstance(t.slice, ast.Slice) and canon(through_alias(mm.node, t.value)) == und:
+                        neg = [b for b in (t.slice.lower, t.slice.upper) if isinstance(b, ast.UnaryOp) and isinstance(b.op, ast.USub) and not isinstance(b.operand, ast.Constant)]
+                        res.add("R11.3", f"History.{n_}|trim-slice-right-at-limit-zero", not neg, f"{mm.unit.rel}:{x.lineno}",
+                                "the slice that is cut away has no negated bound" if not neg else
+                                f"`{ast.unparse(x)}` negates the limit: with a limit of 0 (max_history_items=0: keep no history) `{ast.unparse(neg[0])}` is -0 = 0, the slice is "
+                                "empty, nothing is ever deleted -- the undo list exceeds the configured limit and undo() succeeds where it has to be refused", function=mm.qualname)
     cfg = CFG(common.inline_private_calls(idx, m, keep=trim))
 
     def clears_redo(n):
